@@ -28,6 +28,8 @@ EXPLANATION = (
     "The product of client programs with live worker schedules (re-configure "
     "while a worker is inside a HAL call, double start) is outside the "
     "sequential model and is not decided.")
+EXPLANATION += (' R-IDENT-EQ: identifier comparison helpers exact (linear domain) and the remembered identifier updated after every open. R-THREAD-EXIT: flags cleared, device stopped, no device call after is_running = 0.')
+
 
 
 def sim_controller(prog, res, which):
